@@ -18,7 +18,7 @@ pub fn def() -> PropDef {
     PropDef {
         id: "C14",
         level: "exploration",
-        rule: "cases = (type T of the C04 family, value x of T): to_value(x) compared structurally with the shape function written per type from the crate documentation (sequences/sets as proper lists, tuples/tuple structs as vectors, maps/structs as alists with symbol field names, None=() Some(x)=(x), unit=(), newtype struct = content, unit variant = symbol, newtype variant = (name . payload), tuple variant = (name item...), struct variant = (name (field . value)...), byte buffers as byte vectors, chars as characters, integers by mathematical value); plus, for every Seq/Tuple position of the shape (sampled), the alternative encoding (vector for sequence / proper list for tuple: must deserialize to x) and two corruptions (improper list, wrong kind: must fail with a data-category error, no panic). non-trivial = one shape comparison or one alternative/corrupted encoding judged; distinct = hash of (type, encoded value)",
+        rule: "cases = (type T of the C04 family, value x of T): to_value(x) compared structurally with the shape function written per type from the crate documentation (sequences/sets as proper lists, tuples/tuple structs as vectors, maps/structs as alists with symbol field names, None=() Some(x)=(x), unit=(), newtype struct = content, unit variant = symbol, newtype variant = (name . payload), tuple variant = (name item...), struct variant = (name (field . value)...), byte buffers as byte vectors, chars as characters, integers by mathematical value); plus, for every Seq/Tuple position of the shape (sampled), the alternative encoding (vector for sequence / proper list for tuple: must deserialize to x) and two corruptions (improper list -- foreign tail, the last item as tail, byte-vector or vector tail --, wrong kind -- atoms of every kind, or a look-alike: the items as a byte vector or string, empty byte vector: must fail with a data-category error, no panic). non-trivial = one shape comparison or one alternative/corrupted encoding judged; distinct = hash of (type, encoded value)",
         assumptions: &["the hand-written shape functions transcribe the documentation correctly"],
         nofast_too: false,
         min_quick: 100_000,
@@ -80,7 +80,8 @@ pub fn run<T: Fam>(rep: &mut Report, rng: &mut Rng) {
         let k = rng.below(n);
         for alt in [AltKind::Accept, AltKind::ImproperReject, AltKind::WrongKindReject] {
             let wrong = rng.pick(&wrongs).clone();
-            let v = match render_alt(&shape, k, alt, &wrong) {
+            let variant = rng.below(4);
+            let v = match render_alt(&shape, k, alt, &wrong, variant) {
                 Some(v) => v,
                 None => continue,
             };
